@@ -277,6 +277,33 @@ fn long_strings(r: &mut Rng, f: &mut dyn FnMut(&str)) {
     }
 }
 
+/// Characters that collapse onto one of the special ASCII characters under a lossy narrowing of the
+/// code point (`c as u8`, `c as u16`, low seven bits), placed where the special character itself
+/// would change the decision. A validator that classifies characters through a table indexed by a
+/// truncated code point, or that skips non-ASCII characters before the wildcard rules, decides
+/// these differently from the specification (round 9: `seeded/P05`, `seeded/P04`).
+fn lookalike_strings(small: bool, f: &mut dyn FnMut(&str)) {
+    const SPECIALS: [u32; 5] = [0x00, 0x23, 0x2B, 0x2F, 0x24];
+    const BASES: [u32; 9] = [0x100, 0x1_F600, 0x80, 0x200, 0x300, 0x4E00, 0xFF00, 0x1_0000, 0x10_FF00];
+    const TEMPLATES: [&str; 20] = [
+        "{}", "a{}", "{}a", "a/{}", "{}/a", "+{}", "{}+", "a/+{}", "a/{}/b", "{}#", "#{}", "a/{}{}", "$share/{}/a", "$share/g/{}", "$share/g{}/a", "$SYS/{}", "{}SYS/a", "$share{}g/a",
+        "{}share/g/a", "a/+{}/#",
+    ];
+    let nb = if small { 2 } else { BASES.len() };
+    let nt = if small { 8 } else { TEMPLATES.len() };
+    for &b in &BASES[..nb] {
+        for &s in &SPECIALS {
+            if let Some(ch) = char::from_u32(b + s) {
+                let mut cs = [0u8; 4];
+                let cs: &str = ch.encode_utf8(&mut cs);
+                for t in &TEMPLATES[..nt] {
+                    f(&t.replace("{}", cs));
+                }
+            }
+        }
+    }
+}
+
 pub fn c16(ctx: &mut Ctx, layer: &str) {
     let maxsym = match layer {
         "miri" => 2,
@@ -379,6 +406,23 @@ pub fn c16(ctx: &mut Ctx, layer: &str) {
             c.evals(cnt2);
             c.distinct_direct += cnt2;
             c.countn("segment-sweep", cnt2);
+        }
+        if w == 1 % n {
+            let res = guard(|| {
+                let mut local = c.child();
+                lookalike_strings(layer_is_small, &mut |s| {
+                    local.eval();
+                    local.distinct(fnv_bytes(16, s.as_bytes()));
+                    local.count("code-point-lookalikes");
+                    c16_string(&mut local, s, true);
+                    c16_packet_route(&mut local, s);
+                });
+                local
+            });
+            match res {
+                Ok(local) => c.merge(local),
+                Err(pm) => c.violation(format!("C16:panic:{}", panic_sig(&pm)), format!("filter validation / SUBSCRIBE decoding panicked on a look-alike character: {}", pm), Case::new("string", 0, &[])),
+            }
         }
         if w == 0 {
             for s in ["+", "#", "+/+", "+x", "a/+x", "$share/g/+x", "x+", "a/#", "a/#/", "$share/g/a", "$share/g", "sport/+/player1", "/", "//", "$share/é𝄞/+/#"] {
@@ -790,6 +834,22 @@ pub fn c18(ctx: &mut Ctx, layer: &str) {
             local.evals(cnt2);
             local.distinct_direct += cnt2;
             local.countn("segment-sweep", cnt2);
+            c.merge(local);
+        }
+        if w == 1 % n {
+            let mut local = c.child();
+            let res = guard(|| {
+                lookalike_strings(matches!(layer, "miri" | "vg"), &mut |s| {
+                    local.eval();
+                    local.distinct(fnv_bytes(18, s.as_bytes()));
+                    local.count("code-point-lookalikes");
+                    c18_string(&mut local, s, true);
+                    c18_packet_routes(&mut local, s);
+                });
+            });
+            if let Err(pm) = res {
+                c.violation(format!("C18:panic:{}", panic_sig(&pm)), format!("topic name validation / PUBLISH decoding panicked on a look-alike character: {}", pm), Case::new("string", 0, &[]));
+            }
             c.merge(local);
         }
         if w == 0 {
